@@ -103,6 +103,68 @@ func genTypes(repo, out string) {
 		fmt.Fprintf(&b, "def controlState%sIndexesByValue : Bool := %s\n", name, indexed)
 		fmt.Fprintf(&b, "def controlState%sDelegatesToString : Bool := %s\n", name, delegates)
 	}
+	// date construction sites (C13): how each gets its instant
+	fdate := parseFile(filepath.Join(repo, "types/date.go"))
+	fsys := parseFile(filepath.Join(repo, "types/systemdate.go"))
+	fdt := parseFile(filepath.Join(repo, "types/datetime.go"))
+	site := func(fn *ast.FuncDecl) string {
+		if fn == nil {
+			return "missing"
+		}
+		usesHelper, localDirect := false, false
+		ast.Inspect(fn.Body, func(n ast.Node) bool {
+			if call, ok := n.(*ast.CallExpr); ok {
+				switch src(call.Fun) {
+				case "startOfDay":
+					usesHelper = true
+				case "time.ParseInLocation", "time.Date":
+					if len(call.Args) > 0 && src(call.Args[len(call.Args)-1]) == "time.Local" {
+						localDirect = true
+					}
+				}
+			}
+			return true
+		})
+		switch {
+		case usesHelper && !localDirect:
+			return "startOfDay"
+		case localDirect && !usesHelper:
+			return "local-midnight"
+		default:
+			return "mixed"
+		}
+	}
+	dsites := []struct {
+		name string
+		fn   *ast.FuncDecl
+	}{
+		{"ToDate", findFunc(fdate, "ToDate", "")},
+		{"ParseDate", findFunc(fdate, "ParseDate", "")},
+		{"DateWire", findFunc(fdate, "UnmarshalUT0311L0x", "Date")},
+		{"DateJSON", findFunc(fdate, "UnmarshalJSON", "Date")},
+		{"SystemDateWire", findFunc(fsys, "UnmarshalUT0311L0x", "SystemDate")},
+	}
+	parts := []string{}
+	for _, st := range dsites {
+		parts = append(parts, fmt.Sprintf("(%s, %s)", leanStr(st.name), leanStr(site(st.fn))))
+	}
+	fmt.Fprintf(&b, "/-- how each date construction site obtains its instant -/\ndef dateSites : List (String × String) := [%s]\n", strings.Join(parts, ", "))
+	helper := ""
+	if fn := findFunc(fdate, "startOfDay", ""); fn != nil {
+		helper = strings.Join(strings.Fields(src(fn.Body)), " ")
+	}
+	fmt.Fprintf(&b, "/-- body of the helper `startOfDay` (whitespace-normalised) -/\ndef startOfDayBody : String := %s\n", leanStr(helper))
+	// DateTime wire decoder: which byte patterns are the zero value
+	sentinels := []string{}
+	if fn := findFunc(fdt, "UnmarshalUT0311L0x", "DateTime"); fn != nil {
+		ast.Inspect(fn.Body, func(n ast.Node) bool {
+			if call, ok := n.(*ast.CallExpr); ok && src(call.Fun) == "bytes.Equal" && len(call.Args) == 2 {
+				sentinels = append(sentinels, leanStr(strings.Join(strings.Fields(src(call.Args[1])), "")))
+			}
+			return true
+		})
+	}
+	fmt.Fprintf(&b, "/-- byte patterns `DateTime.UnmarshalUT0311L0x` maps to the zero value -/\ndef dateTimeZeroPatterns : List String := [%s]\n", strings.Join(sentinels, ", "))
 	b.WriteString("end Uhppote.Gen.Types\n")
 	writeIfChanged(filepath.Join(out, "Types.lean"), b.String())
 }
